@@ -895,6 +895,9 @@ class TT():
             torch.tensor: the values of the tensor
 
         """
+        if tn.is_tensor(indices) and (len(indices.shape) != 2 or indices.shape[1] != len(self.__N)):
+            raise InvalidArguments(
+                'The index list must have one column per mode.')
         result = apply_mask(self.cores, self.__R, indices)
         return result
 
